@@ -109,6 +109,8 @@ type Exec struct {
 	race      *raceState
 	endMsg    string
 	killing   bool
+	ranks     map[string]*rankEntry
+	rankOrder []string
 	eqConst   map[string]*Term
 	h1, h2    uint64
 	model     map[string]interface{} // satisfies pc when modelOK
@@ -277,7 +279,7 @@ func (ex *Exec) decide(kind string, guards []*Term) int {
 				continue
 			}
 		}
-		r, model := ex.query(g, true)
+		r, model := ex.query(g, false)
 		switch r {
 		case Sat:
 			feas = append(feas, i)
